@@ -3,14 +3,14 @@
 # tests pass with the change, the demonstration fails with it and passes without it.  Then store it under /verif/seeded/<name>.
 set -u
 P=$1; NAME=${2:-$P}
-SRC=/tmp/mut_$P/SEED
+SRC=${SEEDSRC:-/tmp/mut_$P}/SEED
 WT=/tmp/confirm_$P; TGT=/tmp/confirm_target
 export CARGO_NET_OFFLINE=true CARGO_TARGET_DIR=$TGT
 git -C /repo worktree remove --force $WT 2>/dev/null; rm -rf $WT
 git -C /repo worktree add -q $WT HEAD || exit 1
 mkdir -p $WT/SEED; cp $SRC/* $WT/SEED/
 # demonstrations refer to the agent's own paths
-sed -i "s#/tmp/mut_$P#$WT#g; s#/tmp/mut_target_$P#$TGT#g" $WT/SEED/demo.* 2>/dev/null
+sed -i "s#${SEEDSRC:-/tmp/mut_$P}#$WT#g; s#/tmp/mut_target_$P#$TGT#g; s#/tmp/mutb_target_$P#$TGT#g" $WT/SEED/demo.* 2>/dev/null
 cd $WT
 run_demo() {
   if [ -f SEED/demo.py ]; then (cd $WT && cargo build --release --offline -q 2>&1 | tail -3; timeout 300 python3 SEED/demo.py > SEED/demo.out 2>&1; echo $?)
